@@ -2041,7 +2041,14 @@ class Parallel(Logger):
         # Following flag prevents double calls to `backend.stop_call`.
         self._calling = True
 
-        iterator = iter(iterable)
+        try:
+            iterator = iter(iterable)
+        except BaseException:
+            # Nothing has been dispatched: leave the instance in a reusable
+            # state before raising the error in the caller.
+            self._running = False
+            self._terminate_and_reset()
+            raise
         pre_dispatch = self.pre_dispatch
 
         if pre_dispatch == "all":
